@@ -34,7 +34,9 @@ Init == now = 0 /\ last = 0 /\ up = TRUE /\ sends = 0 /\ will = FALSE /\ hist = 
 
 \* the last thing the client sent was the beginning of a packet ("part1": its first byte, "part3": a PUBLISH header
 \* announcing more than follows): these are bytes like any others (the deadline counts from them), and the rest never comes
-Partial(k) == k \in {"part1", "part3"}
+\* "partbig": all but the last bytes of the longest packet the ring takes (remaining length = ring minus a read block):
+\* the broker may refuse it at once or wait for the rest - either way the connection is gone after the silence
+Partial(k) == k \in {"part1", "part3", "partbig"}
 MidPacket == hist # <<>> /\ Partial(hist[Len(hist)].kind)
 
 \* the client lets g grid units pass and then sends a packet of the given kind
